@@ -335,6 +335,92 @@ def run(ctx):
             if not any(o['clause'] == cl_ for o in R.obligations):
                 R.ok(cl_, 'R7', 'decoder closure: no %s a wire-integer-derived value' % what_, '%d functions with wire integers, %d derived locals examined' % (nf, total_tainted))
 
+    # ---- (e) decode depth: a wire type that contains itself is decoded by a visitor that recurses once per nesting level of the INPUT
+    # (serde derive + bincode / ciborium have no depth bound): a few KB of nested empty values overflow the stack, which aborts the
+    # process (F17, MKMapProof: 1000 levels = 53 KB abort a 2 MiB thread).  Type-level rule: no ADT reachable through the fields of a
+    # decoded type reaches itself, unless its Deserialize impl is hand-written (where a depth guard can live; then audited by hand).
+    R.clause('e', 'no decoded wire type is recursive (decode depth driven by the input)')
+    adts = ws.adts
+    import re as _re
+    names_sorted = sorted(adts, key=len, reverse=True)
+
+    def field_adts(an):
+        out = set()
+        a = adts.get(an)
+        if not a:
+            return out
+        for v in a['variants']:
+            for fd in v['fields']:
+                ty = fd.get('ty') or ''
+                for cand in _re.findall(r'[A-Za-z_][A-Za-z0-9_]*(?:::[A-Za-z_][A-Za-z0-9_]*)+', ty):
+                    if cand in adts:
+                        out.add(cand)
+        return out
+    roots_t = set()
+    for f in in_scope:
+        m = _re.match(r'^(?:<)?([A-Za-z_][A-Za-z0-9_:]*?)(?:<.*>)?::(?:from_bytes\w*|from_json_hex|from_bytes_hex|try_from)$', f.name)
+        if m and m.group(1) in adts:
+            roots_t.add(m.group(1))
+    reach_t, work = set(), list(roots_t)
+    while work:
+        t = work.pop()
+        if t in reach_t:
+            continue
+        reach_t.add(t)
+        work.extend(field_adts(t))
+    recursive = []
+    for t in sorted(reach_t):
+        seen_t, work = set(), list(field_adts(t))
+        while work:
+            u = work.pop()
+            if u == t:
+                recursive.append(t)
+                break
+            if u in seen_t:
+                continue
+            seen_t.add(u)
+            work.extend(field_adts(u))
+    from engine import find_guards as _fg
+    derived = []
+    guarded = []
+    for t in recursive:
+        # a hand-written Deserialize that bounds the nesting: a comparison of a counter with a constant, whose "too deep" outcome cannot
+        # reach the step that decodes the fields (any nested `Deserialize::deserialize` call of the body)
+        ok_guard = False
+        for g in ws.by_name.get('<%s as serde_core::de::Deserialize>::deserialize' % t, []) + ws.by_name.get('<%s as serde::de::Deserialize>::deserialize' % t, []):
+            if g.unit.tag != 'lib':
+                continue
+            gb = g.body
+            steps = [c for c in gb.calls() if any(n.endswith('Deserialize>::deserialize') or n.endswith('::deserialize_struct') or n.endswith('::deserialize_seq')
+                                                  or n.endswith('::deserialize_tuple') or n.endswith('::deserialize_map') for n in c.names())]
+            for gd in _fg(gb):
+                if gd.op not in ('Gt', 'Ge', 'Lt', 'Le'):
+                    continue
+                ca, cb = gb.const_of(gd.a), gb.const_of(gd.b)
+                if isinstance(ca, int) == isinstance(cb, int):
+                    continue
+                # the outcome in which the counter is beyond the constant
+                if isinstance(cb, int):
+                    beyond = gd.true_edges if gd.op in ('Gt', 'Ge') else gd.false_edges
+                else:
+                    beyond = gd.true_edges if gd.op in ('Lt', 'Le') else gd.false_edges
+                within = (gd.true_edges | gd.false_edges) - beyond
+                if steps and beyond and not any(c.bb in gb.reach([0], removed=within) for c in steps):
+                    ok_guard = True
+        if ok_guard:
+            guarded.append(t)
+        else:
+            derived.append(t)
+    if not roots_t:
+        R.missing('e', 'no decoded type could be derived from the decoder entry points')
+    elif derived:
+        for t in derived:
+            R.violation('e', 'R8', 'decoded wire types are not recursive', 'recursive-wire-type:%s' % t.rsplit('::', 1)[-1],
+                        '%s contains itself (through its fields) and is decoded from untrusted bytes: the derived visitor recurses once per nesting level of the input' % t, None)
+    else:
+        R.ok('e', 'R8', 'decoded wire types are not recursive', '%d decoded types, %d reachable field types; recursive with a nesting bound in a hand-written Deserialize: %s' % (
+            len(roots_t), len(reach_t), [t.rsplit('::', 1)[-1] for t in guarded]))
+
     # ---- R8
     used = {}
     sites = 0
